@@ -40,7 +40,8 @@ class TagRS:
 
 class World:
     def __init__(self, ctx, batch_size, seed=7, max_batches=6, d_specials=(INF,), nested_d=0, extra_param=False,
-                 d_lo=None):
+                 d_lo=None, bounded_prior=True):
+        self.bounded_prior = bounded_prior
         self.ctx = ctx
         self.bs = batch_size
         self.seed = seed
@@ -89,6 +90,27 @@ class World:
             @staticmethod
             def rvs(*params, size=None, random_state=None):
                 return w.col('t', w._b_from_rs(random_state), size[0])
+
+            @staticmethod
+            def logpdf(x, *params):
+                """Prior log-density: finite LOGPDF_t(x) on the support, -inf outside; support membership is the
+                uninterpreted predicate INSUP_t (forks)."""
+                ctx = w.ctx
+                x = np.atleast_1d(np.asarray(x, dtype=object) if ctx.symbolic else np.asarray(x, dtype=float))
+                out = np.empty(len(x), dtype=object if ctx.symbolic else float)
+                for i in range(len(x)):
+                    if w.bounded_prior and not bool(ctx.apply_uf('INSUP_t', [x[i]], sort='bool')):
+                        out[i] = -INF
+                    else:
+                        out[i] = ctx.apply_uf('LOGPDF_t', [x[i]])
+                return out
+
+            @staticmethod
+            def pdf(x, *params):
+                ctx = w.ctx
+                lp = PriorDist.logpdf(x, *params)
+                return np.exp(lp) if not ctx.symbolic else np.array(
+                    [0.0 if core._is_special(v) else v.exp() for v in lp], dtype=object)
 
         class PriorDist2:
             @staticmethod
